@@ -90,6 +90,7 @@ fn dispatch(op: &str, fields: &[&str]) -> String
 		"alphaast" => syn_ops::alphaast(fields),
 		"diag" => alpha_ops::diag(fields),
 		"agree" => alpha_ops::agree(fields),
+		"update" => alpha_ops::update(fields),
 		"resolved" => alpha_ops::resolved(fields),
 		"lexd" => delta_ops::lexd(fields),
 		"delta" => delta_ops::delta(fields),
